@@ -1,6 +1,6 @@
 //go:build verif
 
-// White-box accessor for the C02 correspondence harness (injected with `go build -overlay`, never part of /repo).
+// White-box accessors for the C02 correspondence harness (injected with `go build -overlay`, never part of /repo).
 package num
 
 // VerifC02Consts returns the float64 range constants the conversion functions compare against.
